@@ -29,7 +29,8 @@
 //   sess  session server: j the client joined (name of its first login start, its secret) → 200+profile for exactly
 //         that (username, serverId), 204 otherwise; o the client joined under ANOTHER account name; n always 204;
 //         u always 401; e always 500; m always 200 with empty body; b 200 with broken JSON; x 200 JSON without a name
-//   input L:<namehex> login start | E:<tok>:<sec> encryption response (tok v exact token, w other token, g undecryptable;
+//   input L:<namehex> login start | E:<tok>:<sec> encryption response (tok v exact token, w other token of the same length, p a proper prefix of the
+//         token, z the empty token, l the token plus one byte (all correctly RSA-encrypted), g undecryptable;
 //         sec k 16-byte secret, g undecryptable, s 5-byte secret) | P:<id> plugin response | U unknown packet id | A LoginAcknowledged
 //   observation: transcript `>i` (input i sent) `<Pkt` (packet received) … end=<open|closed> ev=<events> join=<namehex>:<sidOk>,…
 package main
@@ -510,13 +511,20 @@ func runCase(r *rig, cs caseSpec) (sent []string, obs string) {
 			f := strings.Split(in, ":")
 			var tokCT, secCT []byte
 			switch f[1] {
-			case "v", "w":
+			case "v", "w", "p", "z", "l":
 				t := append([]byte(nil), token...)
 				if len(t) == 0 {
 					t = []byte{9, 9, 9, 9}
 				}
-				if f[1] == "w" {
+				switch f[1] {
+				case "w":
 					t[0] ^= 0x55
+				case "p": // a proper prefix of the issued token
+					t = t[:2]
+				case "z": // the empty token: needs no knowledge of the issued one
+					t = []byte{}
+				case "l": // the issued token with one more byte
+					t = append(t, 0)
 				}
 				tokCT, _ = rsa.EncryptPKCS1v15(rand.Reader, &r.key.PublicKey, t)
 			default:
@@ -735,7 +743,7 @@ func (g *gen) input() string {
 	case x < 13:
 		tok := "v"
 		if g.r.Chance(1, 4) {
-			tok = hx.Pick(g.r, []string{"w", "g"})
+			tok = hx.Pick(g.r, []string{"w", "g", "p", "z", "l"})
 		}
 		sec := "k"
 		if g.r.Chance(1, 5) {
@@ -770,7 +778,7 @@ func (g *gen) sequence() []string {
 		}
 		tok, sec := "v", "k"
 		if g.r.Chance(1, 4) {
-			tok = hx.Pick(g.r, []string{"w", "g"})
+			tok = hx.Pick(g.r, []string{"w", "g", "p", "z", "l"})
 		}
 		if g.r.Chance(1, 5) {
 			sec = hx.Pick(g.r, []string{"g", "s"})
@@ -834,6 +842,9 @@ func main() {
 	fx("fixed-admit", true, 'f', 'n', nm("Alice_04"))
 	fx("fixed-reject", true, 'a', 'j', nm("Alice_05"), "E:w:k")
 	fx("fixed-reject", true, 'a', 'j', nm("Alice_06"), "E:g:k")
+	fx("fixed-reject", true, 'a', 'j', nm("Alice_06p"), "E:p:k") // a prefix of the token is not the token
+	fx("fixed-reject", true, 'a', 'j', nm("Alice_06z"), "E:z:k") // nor is the empty token
+	fx("fixed-reject", true, 'a', 'j', nm("Alice_06l"), "E:l:k")
 	fx("fixed-reject", true, 'a', 'j', nm("Alice_07"), "E:v:g")
 	fx("fixed-reject", true, 'a', 'j', nm("Alice_08"), "E:v:s")
 	for _, s := range []byte("onuembx") {
